@@ -150,7 +150,7 @@ META["C01"] = dict(
         "mon.route.print_config": g(100, 1000),
         "mon.route.save.single": g(300, 3000),
         "mon.route.save.multifile": g(200, 2000),
-        "mon.loader_dumper_pairs": g(500, 500),
+        "mon.loader_dumper_pairs": g(400, 400),
         "st.value_kind.enum": g(30, 300), "st.value_kind.dict": g(30, 300), "st.value_kind.tuple": g(30, 300),
         "st.value_kind.set": g(20, 200), "st.value_kind.reg": g(30, 300), "st.value_kind.union": g(30, 300),
         "st.value_kind.dataclass": g(20, 200), "st.value_kind.class": g(5, 50), "st.value_kind.literal": g(30, 300),
@@ -241,6 +241,7 @@ META["C03"] = dict(
     rule="a case is (parser shape, exit_on_error, method, tuple of token/value classes); distinct by hash; every case is non-trivial "
     "(a call was made and classified).",
     gates={
+        "mon.print_config_of_accepted_argv": g(300, 3000),
         "mon.exit_on_error_modes_compared": g(2000, 20000), "st.shape.dcf": g(500, 5000),
         "mon.outcome_class": g(4000, 60000),
         "st.accepted": g(300, 4000),
@@ -340,7 +341,7 @@ META["C06"] = dict(
     rule="a case is (mutation kind, node kind, channel, value class, token class, feature set); distinct by hash; non-trivial = the "
     "unmutated configuration was accepted by every channel first.",
     gates={
-        "mon.valid_baseline_accepted": g(20, 500),
+        "mon.valid_baseline_accepted": g(20, 150),
         "mon.foreign_key_insertions": g(2000, 40000),
         "mon.required_key_mutations": g(300, 6000),
         "st.node.top": g(30, 300), "st.node.group": g(30, 300), "st.node.dataclass": g(30, 300), "st.node.dataclass-nested": g(30, 300),
@@ -351,7 +352,7 @@ META["C06"] = dict(
         "st.required.required-param-of-selected-class": g(30, 300), "st.required.required-dataclass-field": g(30, 300),
         "st.required.required-option-of-subcommand": g(20, 200), "st.required.required-option-of-subcommand-level2": g(10, 100),
         "st.channel.argv": g(25, 400),
-        "mon.parse_known_args_refused": g(20, 300),
+        "mon.parse_known_args_refused": g(20, 150),
     },
     assumptions=["a foreign key beside class_path/init_args (spec level) is not among the levels the statement lists and is not inserted"],
 )
